@@ -13,7 +13,7 @@ use serde_json::json;
 use tls_parser::nom;
 use tls_parser::*;
 
-pub const RULE: &str = "per enumerated field, a complete sweep of its domain (65536 values for u16 fields, 256 for u8 fields, 256x256 for alert level x description and hash x signature) inside an otherwise valid reference encoding, compared with the expected crate value by PartialEq; fields: record version (raw, encrypted, plaintext, DTLS), ClientHello / HelloRetryRequest / DTLS ClientHello / HelloVerifyRequest version, cipher id (ClientHello list, ServerHello, draft-18 hello, HelloRetryRequest, ESNI, DTLS ClientHello), named group (supported_groups, ECParameters, ESNI), signature-algorithm entries (extension, CertificateRequest), extension type, supported_versions entries, compression id (list, ServerHello), alert level x description (TLS, DTLS), heartbeat message type, heartbeat extension mode, max-fragment-length code, SNI name type, certificate-status type (extension, CertificateStatus message), certificate types, PSK modes, EC point formats, CT version, KeyUpdate value, hash x signature algorithm, content type of raw / encrypted records and of the DTLS record header; and the same domains through the derive-generated entry points (parse, parse_be, parse_le) of the 18 code-point types themselves plus SignatureAndHashAlgorithm, TlsMessageAlert and TlsRecordHeader (SignatureScheme::parse_le, endianness-generic in the crate, is not judged). distinct_nontrivial = distinct (field, 1/64th slice of the domain) pairs swept";
+pub const RULE: &str = "per enumerated field, a complete sweep of its domain (65536 values for u16 fields, 256 for u8 fields, 256x256 for alert level x description and hash x signature) inside an otherwise valid reference encoding, compared with the expected crate value by PartialEq; fields: record version (raw, encrypted, plaintext, DTLS), ClientHello / HelloRetryRequest / DTLS ClientHello / HelloVerifyRequest version, cipher id (ClientHello list, ServerHello, draft-18 hello, HelloRetryRequest, ESNI, DTLS ClientHello), named group (supported_groups, ECParameters, ESNI), signature-algorithm entries (extension, CertificateRequest), extension type, supported_versions entries, compression id (list, ServerHello), alert level x description (TLS, DTLS, and through TlsRecordsParser objects that have already seen ChangeCipherSpec / handshake / application-data / alert records), heartbeat message type, heartbeat extension mode, max-fragment-length code, SNI name type, certificate-status type (extension, CertificateStatus message), certificate types, PSK modes, EC point formats, CT version, KeyUpdate value, hash x signature algorithm, content type of raw / encrypted records and of the DTLS record header; and the same domains through the derive-generated entry points (parse, parse_be, parse_le) of the 18 code-point types themselves plus SignatureAndHashAlgorithm, TlsMessageAlert and TlsRecordHeader (SignatureScheme::parse_le, endianness-generic in the crate, is not judged). distinct_nontrivial = distinct (field, 1/64th slice of the domain) pairs swept";
 pub const ASSUMPTIONS: &[&str] = &["fields that select the structure (ServerHello version, handshake type, EC curve type, plaintext content type) are excluded by the statement"];
 
 /// one probe: `good` says the parse succeeded with exactly the expected value
@@ -305,6 +305,50 @@ pub fn run(ctx: &mut Ctx) {
         ctx.shape(&("ct-matrix", idx / 8));
     });
 
+    // content types >= 0x80 inside inputs shaped exactly like an SSL 2.0 CLIENT-HELLO (length fields mutually
+    // consistent: 15-bit record length = 9 + cipher-spec + session-id + challenge lengths): still a record
+    // whose content type is returned unchanged
+    ctx.floor("swept.content_type.sslv2_shaped", 128 * 6 * 4 * 2);
+    ctx.sweep("content_type.sslv2_shaped", 128, |ctx, idx| {
+        let t = 0x80u8 | idx as u8;
+        let mut rng = Rng::new(idx ^ 0x55_12);
+        let filler = rng.bytes(40_000);
+        for version in [0x0002u16, 0x0300, 0x0301, 0x0302, 0x0303, 0x0304] {
+            for (b, c) in [(0usize, 16usize), (16, 32), (0, 32), (16, 16)] {
+                // total = 9 + a + b + c with a a positive multiple of 3 and (total >> 8) == t & 0x7f
+                let lo_min = (((t & 0x7f) as usize) << 8).max(9 + 3 + b + c);
+                let mut total = lo_min + (rng.below(200) as usize).min(255 - (lo_min & 0xff));
+                while (total - 9 - b - c) % 3 != 0 || total - 9 - b - c == 0 {
+                    total += 1;
+                }
+                if total >> 8 != (t & 0x7f) as usize {
+                    ctx.add("swept.content_type.sslv2_shaped", 2);
+                    continue;
+                }
+                let a = total - 9 - b - c;
+                let mut m = vec![t, (total & 0xff) as u8, 1];
+                m.extend_from_slice(&version.to_be_bytes());
+                m.extend_from_slice(&(a as u16).to_be_bytes());
+                m.extend_from_slice(&(b as u16).to_be_bytes());
+                m.extend_from_slice(&(c as u16).to_be_bytes());
+                m.extend_from_slice(&filler[..a + b + c]);
+                // read as a TLS record: version = (low length byte, 0x01), declared length = the SSLv2 version field
+                let (v, l) = (u16::from_be_bytes([m[1], m[2]]), version as usize);
+                while m.len() < 5 + l + 2 {
+                    m.push(0xEE);
+                }
+                let extra = m.len() - 5 - l;
+                let g1 = matches!(parse_tls_raw_record(&m), Ok((rem, r)) if rem.len() == extra && r.hdr.record_type.0 == t && r.hdr.version.0 == v && r.data.len() == l);
+                let g2 = matches!(parse_tls_encrypted(&m), Ok((rem, r)) if rem.len() == extra && r.hdr.record_type.0 == t && r.hdr.version.0 == v && r.msg.blob.len() == l);
+                probe(ctx, "content_type.sslv2_shaped.raw", t as u32, g1, &m[..m.len().min(40)]);
+                probe(ctx, "content_type.sslv2_shaped.encrypted", t as u32, g2, &m[..m.len().min(40)]);
+                ctx.add("swept.content_type.sslv2_shaped", 2);
+            }
+        }
+        ctx.evals(48);
+        ctx.shape(&("ct-sslv2", idx / 8));
+    });
+
     // ------------------------------------------------ 256 x 256 pairs
     ctx.floor("swept.alert.level_x_description", 65536 * 2);
     ctx.sweep("alert.level_x_description", 256, |ctx, idx| {
@@ -323,6 +367,32 @@ pub fn run(ctx: &mut Ctx) {
         ctx.add("swept.alert.level_x_description", 512);
         ctx.shape(&("alert", idx / 4));
     });
+    // every (level, description) pair through the stateful record parser, on a parser object that has already
+    // seen other records (ChangeCipherSpec, handshake, application data, an earlier alert): code points are
+    // preserved whatever came before
+    ctx.floor("swept.alert.via_defragmenter_after_history", 65536 * 4);
+    ctx.sweep("alert.via_defragmenter_after_history", 256, |ctx, idx| {
+        let l = idx as u8;
+        let histories: [&[(u8, &[u8])]; 4] = [&[(0x14, &[1])], &[(0x16, &[0, 0, 0, 0])], &[(0x17, &[1, 2, 3]), (0x14, &[1])], &[(0x15, &[2, 40]), (0x14, &[1]), (0x14, &[1])]];
+        for (hi, h) in histories.iter().enumerate() {
+            let mut p = TlsRecordsParser::default();
+            for (t, d) in h.iter() {
+                let _ = p.parse_record(TlsRawRecord { hdr: TlsRecordHeader { record_type: TlsRecordType(*t), version: TlsVersion(0x0303), len: d.len() as u16 }, data: d });
+            }
+            for d in 0..=255u8 {
+                let data = [l, d];
+                let rec = TlsRawRecord { hdr: TlsRecordHeader { record_type: TlsRecordType(0x15), version: TlsVersion(0x0303), len: 2 }, data: &data };
+                let r = if d % 2 == 0 { p.parse_record(rec) } else { p.parse_record_nocopy(rec) };
+                let good = matches!(&r, Ok((rem, m)) if rem.is_empty() && m.len() == 1 && matches!(&m[0], TlsMessage::Alert(a) if a.severity.0 == l && a.code.0 == d));
+                drop(r);
+                probe(ctx, "alert.via_defragmenter_after_history", ((l as u32) << 8) | d as u32, good, &[hi as u8, l, d]);
+            }
+            ctx.add("swept.alert.via_defragmenter_after_history", 256);
+        }
+        ctx.evals(1024);
+        ctx.shape(&("alert-hist", idx / 4));
+    });
+
     ctx.floor("swept.digitally_signed.hash_x_sign", 65536);
     ctx.sweep("digitally_signed.hash_x_sign", 256, |ctx, idx| {
         let mut rng = Rng::new(idx);
